@@ -141,7 +141,7 @@ impl MD {
             MD::TripleWithP(p) => matches!(t, ATerm::Triple(tr) if p.same_term(&tr[1])),
         }
     }
-    fn real(&self) -> EM {
+    pub fn real(&self) -> EM {
         match self {
             MD::Any => EM::Any(Any),
             MD::Const(c) => EM::Const([c.to_simple()]),
@@ -256,7 +256,7 @@ impl GD {
             GD::TripleNone => g.is_none(),
         }
     }
-    fn real(&self) -> EG {
+    pub fn real(&self) -> EG {
         let o = |x: &Option<ATerm>| x.as_ref().map(|t| t.to_simple());
         match self {
             GD::Any => EG::Any(Any),
